@@ -7,7 +7,7 @@
 (* rewriter and prints one verdict line per (record, property).            *)
 (* The post-condition only states that every record was consumed.          *)
 (***************************************************************************)
-EXTENDS Sites, Hygiene, LiteralsObs, Json, IOUtils
+EXTENDS Sites, Hygiene, LiteralsObs, Rewriter, Json, IOUtils
 
 Recs == ndJsonDeserialize(IOEnv.TRACE)
 
@@ -148,8 +148,33 @@ JudgeLiterals(r) ==
     IF why # "" THEN Verdict(r.rid, "C14", "reject", why)
     ELSE Verdict(r.rid, "C14", IF r.cfg.literals /\ Len(r.literal_locs) > 0 THEN "ok" ELSE "ok0", Len(r.literal_locs))
 
+(* L1 conformance: the design model (Rewriter.tla) predicts the observation.  A disagreement is *)
+(* MODEL DRIFT, reported as such, never a property violation.                                   *)
+DbgOf(pred) == {<<t, pred.dbg[t]>> : t \in DOMAIN pred.dbg}
+JudgeModel(r) ==
+  \E rin \in {TreeOf(r.in)} :
+  \E pred \in {Rewrite(rin, r.cfg)} :
+    IF pred.status # r.status
+    THEN Verdict(r.rid, "L1", "drift", <<"status predicted", pred.status, "observed", r.status>>)
+    ELSE IF r.status # "modified" THEN Verdict(r.rid, "L1", "ok0", r.status)
+    ELSE \E rout \in {TreeOf(r.out)} :
+         \E d \in {IF ~r.swc_out_ok THEN "output does not parse" ELSE ShapeDiff(Shape(pred.out), Shape(rout))} :
+         IF d # "" THEN Verdict(r.rid, "L1", "drift", d)
+         ELSE IF pred.count # r.count THEN Verdict(r.rid, "L1", "drift", <<"count predicted", pred.count, "observed", r.count>>)
+         ELSE IF r.has_debug /\ DbgOf(pred) # {<<r.debug[i].tag, r.debug[i].n>> : i \in 1..Len(r.debug)}
+              THEN Verdict(r.rid, "L1", "drift", <<"debug predicted", DbgOf(pred), "observed", r.debug>>)
+         ELSE Verdict(r.rid, "L1", "ok", pred.count)
+
+JudgeCancelled(r) ==
+  \* a refused rewrite of a parsable input: the model must predict the refusal too
+  \E rin \in {TreeOf(r.in)} :
+  \E pred \in {Rewrite(rin, r.cfg)} :
+    IF pred.outcome = "cancelled" THEN Verdict(r.rid, "L1", "ok", "refusal predicted")
+    ELSE Verdict(r.rid, "L1", "drift", <<"observed a refusal, predicted", pred.status>>)
+
 Judge(r) ==
   /\ JudgeTotal(r)
+  /\ (IF r.outcome = "ok" THEN JudgeModel(r) ELSE IF r.refused THEN JudgeCancelled(r) ELSE TRUE)
   /\ IF r.outcome = "ok" THEN JudgeOk(r) /\ JudgeLiterals(r) ELSE TRUE
 
 Init == l = 1
